@@ -113,7 +113,7 @@ type Prop struct {
 	Serial bool   // Exec touches process-global state: run single-threaded
 	Gen    func(g *Gen)
 	Exec   func(line string) Out
-	// Timeout per case (0 = 10 s)
+	// Timeout per case (0 = 60 s)
 	Timeout time.Duration
 	Rule   string // how cases are generated / what is non-trivial
 }
@@ -155,7 +155,7 @@ type Report struct {
 func safeExec(p *Prop, line string) (out Out) {
 	to := p.Timeout
 	if to == 0 {
-		to = 10 * time.Second
+		to = 60 * time.Second
 	}
 	done := make(chan Out, 1)
 	go func() {
